@@ -157,7 +157,7 @@ func runLCase(c LCase) *lOutcome {
 		attempt int
 		until   int64
 	}
-	owner := map[string]*grant{} // lease -> the grant it stands for (listings do not expose lease ids on every backend)
+	owner := map[string]*grant{}   // lease -> the grant it stands for (listings do not expose lease ids on every backend)
 	succeeded := map[string]bool{} // lease+"/"+class already succeeded
 	enqSeq := 0
 	for i, op := range c.Ops {
@@ -565,7 +565,7 @@ func runL5Case(c L5Case) *lOutcome {
 		until     int64
 	}
 	var leases []held
-	dueAt := map[string]int64{}   // id -> instant from which it is ready (queued)
+	dueAt := map[string]int64{}    // id -> instant from which it is ready (queued)
 	leasedTo := map[string]int64{} // id -> lease_until (leased)
 	routeOf := map[string]string{}
 	seq := 0
